@@ -4,6 +4,9 @@
    Models: Device/DButton.v (globals, setup sample, per-pass poll, cached is_pressed, host Button),
            Device/DPot.v, Device/DUltra.v (the emitted helper, line by line; clock, delay drift and
            echoes are explicit oracles).
+   The models follow the firmware as repaired by the fix: commit recorded in known_findings.d/C15.json
+   (the three former findings of C15 are now theorems: C15_sample_stable_handler, C15_no_startup_click
+   for every declaration place, C15_backoff without exemption).
    The millisecond clock of the ultrasonic model is an unsigned long of W bits that rolls over
    (millis() = true milliseconds mod 2^W, unsigned arithmetic mod 2^W); W is universally quantified
    (32 on an AVR, 64 on the hosted mock core) and so is the start clock - the theorems hold across the
@@ -22,12 +25,20 @@ Theorem C15_one_sample_per_pass :
 Proof. exact one_sample_per_pass. Qed.
 Print Assumptions C15_one_sample_per_pass.
 
-(* button declared before the main loop: in every pass the handler runs once if that pass is a
-   rising edge of the sampled sequence (setup sample = initial previous value), else not at all *)
+(* setup() takes one sample of every button - declared before the main loop or at the top of the
+   main-loop body - and it becomes both the previous and the cached value *)
+Theorem C15_setup_sample :
+  forall (pl : place) (s0 : bool),
+  b_setup pl s0 = ({| b_prev := s0; b_value := s0 |}, [BRead s0]).
+Proof. exact (fun pl s0 => match pl with BeforeLoop => eq_refl | LoopTop => eq_refl end). Qed.
+Print Assumptions C15_setup_sample.
+
+(* in every pass the handler runs once if that pass is a rising edge of the sampled sequence (setup
+   sample = initial previous value), else not at all - for either declaration place *)
 Theorem C15_clicks_eq_rising_edges :
-  forall (n : nat) (s0 : bool) (ps : list (bool * nat)),
-  map clicks (dev_run BeforeLoop (Some n) s0 ps) = map b2n (edges s0 (map fst ps)).
-Proof. exact clicks_dev_before. Qed.
+  forall (pl : place) (n : nat) (s0 : bool) (ps : list (bool * nat)),
+  map clicks (dev_run pl (Some n) s0 ps) = map b2n (edges s0 (map fst ps)).
+Proof. exact clicks_dev. Qed.
 Print Assumptions C15_clicks_eq_rising_edges.
 
 (* every is_pressed() of the loop body in pass k returns sample k, however often it is called *)
@@ -37,37 +48,30 @@ Theorem C15_sample_stable :
 Proof. exact sample_stable. Qed.
 Print Assumptions C15_sample_stable.
 
-(* ... but an is_pressed() evaluated inside the on_click handler does not: the handler runs before
-   the cached value is updated (finding F-C15-handler-stale-sample) *)
-Theorem C15_sample_stable_handler_refuted :
-  exists (h : option nat) (s0 : bool) (ps : list (bool * nat)) (k : nat) (evs : list bev) (v sample : bool),
-    nth_error (dev_run BeforeLoop h s0 ps) k = Some evs /\
-    nth_error (map fst ps) k = Some sample /\
-    In v (handler_values evs) /\ v <> sample.
-Proof. exact sample_stable_handler_refuted. Qed.
-Print Assumptions C15_sample_stable_handler_refuted.
+(* ... and so does every is_pressed() evaluated inside the on_click handler: the poll stores the new
+   sample before it calls the handler (was finding F-C15-handler-stale-sample, repaired) *)
+Theorem C15_sample_stable_handler :
+  forall (pl : place) (h : option nat) (s0 : bool) (ps : list (bool * nat)) (k : nat) (evs : list bev) (v sample : bool),
+    nth_error (dev_run pl h s0 ps) k = Some evs ->
+    nth_error (map fst ps) k = Some sample ->
+    In v (handler_values evs) -> v = sample.
+Proof. exact sample_stable_handler. Qed.
+Print Assumptions C15_sample_stable_handler.
 
-(* it always returns 0 there, while the sample of the pass is 1 *)
-Theorem C15_handler_sees_previous_sample :
+(* exactly: the handler's evaluations happen in the rising-edge passes only, as many as the handler
+   makes, and each returns 1 (the sample of a rising-edge pass) *)
+Theorem C15_handler_sees_current_sample :
   forall (pl : place) (h : option nat) (s0 : bool) (ps : list (bool * nat)),
-  Forall2 (fun p evs => forall v, In v (handler_values evs) -> v = false /\ fst p = true)
-          ps (dev_run pl h s0 ps).
-Proof. exact handler_sees_previous. Qed.
-Print Assumptions C15_handler_sees_previous_sample.
-
-(* guard: the handler does not call is_pressed(); then the body evaluations are all there is *)
-Theorem C15_sample_stable_partial :
-  forall (pl : place) (h : option nat) (s0 : bool) (ps : list (bool * nat)),
-  hcalls h = 0%nat ->
-  map handler_values (dev_run pl h s0 ps) = map (fun _ => []) ps.
-Proof. exact sample_stable_partial. Qed.
-Print Assumptions C15_sample_stable_partial.
+  map handler_values (dev_run pl h s0 ps) =
+  map (fun e : bool => if e then repeat true (hcalls h) else []) (edges s0 (map fst ps)).
+Proof. exact handler_values_exact. Qed.
+Print Assumptions C15_handler_sees_current_sample.
 
 (* host Button polled once per pass gives the same clicks whenever the signal starts released *)
 Theorem C15_host_agrees :
-  forall (n : nat) (s0 : bool) (ps : list (bool * nat)),
+  forall (pl : place) (n : nat) (s0 : bool) (ps : list (bool * nat)),
   s0 = false ->
-  map clicks (dev_run BeforeLoop (Some n) s0 ps) =
+  map clicks (dev_run pl (Some n) s0 ps) =
   map (fun r => b2n (fst r)) (host_run true (map fst ps)).
 Proof. exact host_agrees. Qed.
 Print Assumptions C15_host_agrees.
@@ -78,55 +82,23 @@ Theorem C15_host_values :
 Proof. exact (fun cb s => host_values cb false s). Qed.
 Print Assumptions C15_host_values.
 
-(* no click at start-up for a button declared before the main loop: setup never calls the
-   handler, and a signal that is pressed at the setup sample cannot click in pass 0 ... *)
+(* no click at start-up, for a button declared before the main loop and for one declared at the top of
+   the main-loop body alike (the latter was finding F-C15-looptop-startup-click, repaired): setup never
+   calls the handler, and a signal that is pressed at the setup sample cannot click in pass 0 ... *)
 Theorem C15_no_startup_click :
-  forall (h : option nat) (s0 : bool) (ps : list (bool * nat)),
-  clicks (snd (b_setup BeforeLoop s0)) = 0%nat /\
-  (s0 = true -> forall evs, hd_error (dev_run BeforeLoop h s0 ps) = Some evs -> clicks evs = 0%nat).
+  forall (pl : place) (h : option nat) (s0 : bool) (ps : list (bool * nat)),
+  clicks (snd (b_setup pl s0)) = 0%nat /\
+  (s0 = true -> forall evs, hd_error (dev_run pl h s0 ps) = Some evs -> clicks evs = 0%nat).
 Proof. exact no_startup_click. Qed.
 Print Assumptions C15_no_startup_click.
 
 (* ... nor ever while it stays pressed *)
 Theorem C15_no_click_while_held :
-  forall (h : option nat) (s0 : bool) (ps : list (bool * nat)),
+  forall (pl : place) (h : option nat) (s0 : bool) (ps : list (bool * nat)),
   s0 = true -> forallb (fun x => x) (map fst ps) = true ->
-  map clicks (dev_run BeforeLoop h s0 ps) = map (fun _ => 0%nat) ps.
+  map clicks (dev_run pl h s0 ps) = map (fun _ => 0%nat) ps.
 Proof. exact no_click_while_held. Qed.
 Print Assumptions C15_no_click_while_held.
-
-(* a button declared at the top of the main-loop body gets no setup sample: prev starts false, and
-   a signal that is pressed from the start (never released) clicks in pass 0
-   (finding F-C15-looptop-startup-click) *)
-Theorem C15_no_startup_click_looptop_refuted :
-  exists (h : option nat) (s0 : bool) (ps : list (bool * nat)) (evs : list bev),
-    s0 = true /\ forallb (fun x => x) (map fst ps) = true /\
-    hd_error (dev_run LoopTop h s0 ps) = Some evs /\ clicks evs = 1%nat.
-Proof. exact no_startup_click_looptop_refuted. Qed.
-Print Assumptions C15_no_startup_click_looptop_refuted.
-
-(* what the loop-top configuration does in general: rising edges relative to "released" *)
-Theorem C15_clicks_looptop :
-  forall (n : nat) (s0 : bool) (ps : list (bool * nat)),
-  map clicks (dev_run LoopTop (Some n) s0 ps) = map b2n (edges false (map fst ps)).
-Proof. exact clicks_dev_looptop. Qed.
-Print Assumptions C15_clicks_looptop.
-
-(* guard: the first pass samples "released"; then the clicks are the rising edges of the sampled
-   sequence itself, and the host agrees without any condition *)
-Theorem C15_no_startup_click_looptop_partial :
-  forall (n : nat) (s0 : bool) (p : bool * nat) (ps : list (bool * nat)),
-  fst p = false ->
-  map clicks (dev_run LoopTop (Some n) s0 (p :: ps)) = map b2n (false :: edges (fst p) (map fst ps)).
-Proof. exact looptop_partial. Qed.
-Print Assumptions C15_no_startup_click_looptop_partial.
-
-Theorem C15_host_agrees_looptop :
-  forall (n : nat) (s0 : bool) (ps : list (bool * nat)),
-  map clicks (dev_run LoopTop (Some n) s0 ps) =
-  map (fun r => b2n (fst r)) (host_run true (map fst ps)).
-Proof. exact host_agrees_looptop. Qed.
-Print Assumptions C15_host_agrees_looptop.
 
 (* non-vacuity: a signal that starts released, with two presses, a hold and a release; the device
    and the host click in passes 1 and 4 only; every body evaluation shows its pass's sample *)
@@ -136,18 +108,24 @@ Example C15_button_nonvacuous :
   map (fun r => b2n (fst r)) (host_run true (map fst ps)) = [0; 1; 0; 0; 1]%nat /\
   map body_values (dev_run BeforeLoop (Some 0%nat) false ps) =
     [[false]; [true; true]; []; [false; false; false]; [true]] /\
+  (* a handler that evaluates is_pressed() twice: two values in each rising-edge pass, both 1 *)
+  map handler_values (dev_run BeforeLoop (Some 2%nat) false ps) = [[]; [true; true]; []; []; [true; true]] /\
+  dev_run LoopTop (Some 1%nat) false [(true, 1%nat)] = [[BRead true; BClick; BPrintH true; BPrint true]] /\
   (* the hypothesis of C15_host_agrees is needed: a signal that starts pressed *)
   map clicks (dev_run BeforeLoop (Some 0%nat) true [(true, 0%nat)]) = [0%nat] /\
   map (fun r => b2n (fst r)) (host_run true [true]) = [1%nat].
 Proof. vm_compute. repeat split; reflexivity. Qed.
 Print Assumptions C15_button_nonvacuous.
 
-(* non-vacuity of the loop-top guard: first pass released, then a press: one click, in pass 1;
-   and the same signal preceded by a pressed pass 0 is the finding's witness *)
+(* non-vacuity for the loop-top declaration: first pass released, then a press: one click, in pass 1;
+   a signal that is pressed from power-up (the witness of the repaired finding) does not click at all,
+   exactly as for a button declared before the loop; it clicks after a release *)
 Example C15_looptop_nonvacuous :
   map clicks (dev_run LoopTop (Some 0%nat) true [(false, 1%nat); (true, 1%nat); (true, 2%nat)]) = [0; 1; 0]%nat /\
-  map clicks (dev_run LoopTop (Some 0%nat) true [(true, 1%nat); (true, 1%nat)]) = [1; 0]%nat /\
-  map clicks (dev_run BeforeLoop (Some 0%nat) true [(true, 1%nat); (true, 1%nat)]) = [0; 0]%nat.
+  map clicks (dev_run LoopTop (Some 0%nat) true [(true, 1%nat); (true, 1%nat)]) = [0; 0]%nat /\
+  map clicks (dev_run BeforeLoop (Some 0%nat) true [(true, 1%nat); (true, 1%nat)]) = [0; 0]%nat /\
+  map clicks (dev_run LoopTop (Some 0%nat) true [(true, 1%nat); (false, 0%nat); (true, 1%nat)]) = [0; 0; 1]%nat /\
+  snd (b_setup LoopTop true) = [BRead true].
 Proof. vm_compute. repeat split; reflexivity. Qed.
 Print Assumptions C15_looptop_nonvacuous.
 
@@ -263,9 +241,11 @@ Print Assumptions C15_attempts_le_3.
 (* back-off, over whole histories and for every width W of the unsigned long millisecond counter:
    calls separated by arbitrary non-negative stretches of time (no upper bound: the counter may roll
    over any number of times in between) and any number of foreign delay() calls, any echoes, any
-   non-negative delay drifts, ANY start clock (in particular within 60 ms of the roll-over, or past it):
-   two consecutive triggers are >= 60 ms of TRUE time apart (whole milliseconds of the un-wrapped clock)
-   unless the unsigned long stored after the first was 0 *)
+   non-negative delay drifts, ANY start clock (0, within 60 ms of the roll-over, exactly on it, past it):
+   two consecutive triggers are >= 60 ms of TRUE time apart (whole milliseconds of the un-wrapped clock),
+   whatever unsigned long was stored after the first - the helper knows that it has triggered from a
+   flag of its own, not from "stored time <> 0" (was finding F-C15-backoff-skipped-at-rollover-zero,
+   repaired; the former exemption at power-up is gone with it) *)
 Theorem C15_backoff :
   forall (W : Z) (drift echo : nat -> Z) (c0 : clock) (gs : list gap),
   0 <= W ->
@@ -284,9 +264,9 @@ Theorem C15_backoff_delays_bounded :
 Proof. exact backoff_delays_bounded. Qed.
 Print Assumptions C15_backoff_delays_bounded.
 
-(* what "the stored time was 0" means: the stored unsigned long is the true millisecond count, taken
-   no earlier than the trigger, modulo 2^W - it is 0 in the first millisecond after power-up (the
-   statement's "once the millisecond clock is running") and again at every exact multiple of 2^W *)
+(* the stored unsigned long is the true millisecond count, taken no earlier than the trigger, modulo
+   2^W - it is 0 in the first millisecond after power-up and again at every exact multiple of 2^W, so
+   its value cannot tell whether the sensor has been triggered *)
 Theorem C15_stored_time_is_wrapped_true_time :
   forall (W : Z) (drift echo : nat -> Z) (st : ustate) (c : clock) (np : nat),
   let a := u_attempt W drift echo st c np in
@@ -320,7 +300,7 @@ Print Assumptions C15_fallback_call.
 
 (* non-vacuity: clock starts at 1000 ms, drift 7 ms on every delay, echoes 58, 0, 0, 0, 1000, 30001(=time-out) ...;
    three calls 25 ms apart: 0.9947 cm; three time-outs -> falls back to 0.9947; then 17.15.
-   Triggers (us, echo, stored ms): the pairs with a non-zero stored time are all >= 60 ms apart,
+   Triggers (us, echo, stored ms): all consecutive pairs are >= 60 ms apart,
    and the hypotheses of C15_backoff hold. *)
 Example C15_ultra_nonvacuous :
   let drift := fun _ : nat => 7 in
@@ -364,26 +344,27 @@ Example C15_ultra_rollover_nonvacuous :
 Proof. cbv zeta. repeat split; vm_compute; reflexivity. Qed.
 Print Assumptions C15_ultra_rollover_nonvacuous.
 
-(* the exemption is real: with the clock still at 0 ms after the first echo the stored trigger
-   time is 0 and the next call triggers again at once (the statement's "once the millisecond
-   clock is running") *)
-Example C15_backoff_exemption :
+(* the back-off no longer depends on the stored value: with the clock still at 0 ms after the first
+   echo the stored trigger time is 0, and the next call nevertheless waits its 60 ms *)
+Example C15_backoff_at_power_up :
   let echo := fun _ : nat => 58 in
   let c0 := {| now_us := 0; ndelay := 0 |} in
-  trigs (history_events (u_calls 32 (fun _ => 0) echo u_init c0 0
-                                 [{| g_us := 0; g_delays := 0 |}; {| g_us := 0; g_delays := 0 |}])) =
-  [(2, 58, 0); (72, 58, 0)].
-Proof. vm_compute. reflexivity. Qed.
-Print Assumptions C15_backoff_exemption.
+  let h := u_calls 32 (fun _ => 0) echo u_init c0 0
+                   [{| g_us := 0; g_delays := 0 |}; {| g_us := 0; g_delays := 0 |}] in
+  trigs (history_events h) = [(2, 58, 0); (60072, 58, 60)] /\ delays (history_events h) = [60].
+Proof. vm_compute. split; reflexivity. Qed.
+Print Assumptions C15_backoff_at_power_up.
 
-(* ... and it comes back at every roll-over: a trigger whose stored time lands exactly on a multiple of
-   2^W ms stores 0, and the next call - although the clock has been running for 49.7 days (W = 32) -
-   triggers again 1 ms later without any back-off (finding F-C15-backoff-skipped-at-rollover-zero;
-   outside the guard "stored time <> 0" of C15_backoff) *)
-Theorem C15_backoff_rollover_zero_refuted :
-  exists (W : Z) (drift echo : nat -> Z) (c0 : clock) (gs : list gap) (t1 d1 t2 d2 m2 : Z),
-    0 <= W /\ (forall k, 0 <= drift k) /\ Forall (fun g => 0 <= g_us g) gs /\
-    trigs (history_events (u_calls W drift echo u_init c0 0 gs)) = [(t1, d1, 0); (t2, d2, m2)] /\
-    60 <= t1 / 1000 /\ t2 / 1000 - t1 / 1000 < 60.
-Proof. exact backoff_rollover_zero_refuted. Qed.
-Print Assumptions C15_backoff_rollover_zero_refuted.
+(* ... nor at the roll-over: the witness of the repaired finding - W = 32, start 1 ms before 2^32 ms,
+   echo 1000 us: the first trigger is stamped 2^32 mod 2^32 = 0 after 49.7 days of running, and the
+   second call now backs off 60 ms (it used to trigger 1 ms later); the same on a 64-bit counter *)
+Example C15_backoff_rollover_zero :
+  let gs := [{| g_us := 0; g_delays := 0 |}; {| g_us := 0; g_delays := 0 |}] in
+  let h32 := u_calls 32 (fun _ => 0) (fun _ => 1000) u_init {| now_us := (2 ^ 32 - 1) * 1000; ndelay := 0 |} 0 gs in
+  let h64 := u_calls 64 (fun _ => 0) (fun _ => 1000) u_init {| now_us := (2 ^ 64 - 1) * 1000; ndelay := 0 |} 0 gs in
+  trigs (history_events h32) = [(4294967295002, 1000, 0); (4294967356014, 1000, 61)] /\
+  delays (history_events h32) = [60] /\
+  trigs (history_events h64) = [(18446744073709551615002, 1000, 0); (18446744073709551676014, 1000, 61)] /\
+  delays (history_events h64) = [60].
+Proof. cbv zeta. repeat split; vm_compute; reflexivity. Qed.
+Print Assumptions C15_backoff_rollover_zero.
